@@ -15,7 +15,7 @@ Transcribed from (repaired tree, see fixes/C09-ambiguous-depth.diff):
 * `fast/selector.go`  `Comp.TryLookupFieldOrMethod` → `tryLookupFieldOrMethod`
 * `fast/switch_type.go` dispatch order of `Comp.TypeSwitch` (`typeswitchCase` sequential tests,
   default executed last, `typeswitchGotoMap` jump table over the initial segment of concrete
-  types) → `tsSequential`, `tsGotoMap`, `tsDispatch`
+  types, rule of `typecaseHelper.add`) → `tsSequential`, `clauseTest`, `tsTable`, `tsDispatch`
 
 Transcription rules / abstractions
 * A universe is a list of named types.  A named type is a struct (its underlying struct type is
@@ -294,18 +294,31 @@ deriving Repr
 
 /-- sequential part: clauses are tested in source order, `default` clauses are skipped
     (their header "never matches"); the default body runs last if nothing matched.
-    `mt ty v` = the run-time test compiled by `typeswitchCase` for type `ty`. -/
-def tsSequential (mt : Option Nat → Bool) : List Clause → Nat → Option Nat
+    `ct c` = the run-time test compiled by `typeswitchCase` for clause `c` (it differs for
+    one-type and several-type clauses, see `clauseTest`). -/
+def tsSequential (ct : Clause → Bool) : List Clause → Nat → Option Nat
   | [], _ => none
   | c :: cs, i =>
-    if c.isDefault = false ∧ c.types.any mt = true then some i else tsSequential mt cs (i+1)
+    if c.isDefault = false ∧ ct c = true then some i else tsSequential ct cs (i+1)
+
+/-- `typeswitchCase`: `switch len(node.List)`: one type → the exact test `mt1` (reflect type and,
+    when the tag carries an xr.Type, identity / Implements on it); several types → `mtN`
+    (reflect types only) -/
+def clauseTest (mt1 mtN : Option Nat → Bool) (c : Clause) : Bool :=
+  if c.types.length = 1 then c.types.any mt1 else c.types.any mtN
+
+/-- the tests `typeswitchCase` compiles when the tag is an `interface{}` (the operand carries no
+    xr.Type): a concrete case type is compared by reflect type; `im ty` = outcome of the test of
+    an interface case type -/
+def mtEmpty (rt : Option Nat → Nat) (conc im : Option Nat → Bool) (dyn : Option Nat) (ty : Option Nat) : Bool :=
+  if conc ty then rt ty == rt dyn else im ty
 
 def tsDefault : List Clause → Nat → Option Nat
   | [], _ => none
   | c :: cs, i => if c.isDefault then some i else tsDefault cs (i+1)
 
-/-- `typeswitchGotoMap`: the initial segment of clauses whose types are all concrete
-    (`conc ty`), as a map type → clause index; built only if it has more than one entry. -/
+/-- `typecaseHelper.add` as written (`else if seen.AllConcrete`): `ConcreteMap` holds the initial
+    run of concrete case types (`conc ty`), in source order, up to the first interface case. -/
 def tsConcretePrefix (conc : Option Nat → Bool) : List Clause → Nat → List (Option Nat × Nat)
   | [], _ => []
   | c :: cs, i =>
@@ -313,20 +326,32 @@ def tsConcretePrefix (conc : Option Nat → Bool) : List Clause → Nat → List
     else if c.types.all conc then c.types.map (·, i) ++ tsConcretePrefix conc cs (i+1)
     else (c.types.takeWhile conc).map (·, i)
 
+/-- the table if the `seen.AllConcrete` guard were missing: every concrete case type -/
+def tsAllConcrete (conc : Option Nat → Bool) : List Clause → Nat → List (Option Nat × Nat)
+  | [], _ => []
+  | c :: cs, i =>
+    if c.isDefault then tsAllConcrete conc cs (i+1)
+    else (c.types.filter conc).map (·, i) ++ tsAllConcrete conc cs (i+1)
+
+/-- `guard` = "the `ConcreteMap.Set` in `typecaseHelper.add` is guarded by `seen.AllConcrete`";
+    extracted from fast/switch_type.go into `Gen/C09Switch.lean` on every run -/
+def tsTable (guard : Bool) (conc : Option Nat → Bool) (cs : List Clause) : List (Option Nat × Nat) :=
+  if guard then tsConcretePrefix conc cs 0 else tsAllConcrete conc cs 0
+
 /-- full dispatch: jump table first, else sequential tests, else default.
     `rt ty` = the `reflect.Type` of case type `ty` (interpreted named types are emulated, so two
-    distinct types may share it); the run-time test of `typeswitchCase` on an `interface{}` tag
-    compares reflect types only ("cannot check exactly").  The jump table maps
-    `entry.Type.ReflectType()` to the clause and is dropped when two keys collide
-    (`len(m) != seen.ConcreteMap.Len()`) or it has at most one entry. -/
-def tsDispatch (rt : Option Nat → Nat) (conc : Option Nat → Bool) (dyn : Option Nat)
-    (cs : List Clause) : Option Nat :=
-  let m := (tsConcretePrefix conc cs 0).map (fun e => (rt e.1, e.2))
+    distinct types may share it).  The jump table (`typeswitchGotoMap`) maps
+    `entry.Type.ReflectType()` to the clause body and is dropped when two keys collide
+    (`len(m) != seen.ConcreteMap.Len()`) or it has at most one entry; it is consulted with the
+    reflect type of the extracted operand BEFORE any sequential test. -/
+def tsDispatch (guard : Bool) (rt : Option Nat → Nat) (conc : Option Nat → Bool) (ct : Clause → Bool)
+    (dyn : Option Nat) (cs : List Clause) : Option Nat :=
+  let m := (tsTable guard conc cs).map (fun e => (rt e.1, e.2))
   let hit := if m.length > 1 ∧ (m.map (·.1)).Nodup then m.lookup (rt dyn) else none
   match hit with
   | some i => some i
   | none =>
-    match tsSequential (fun ty => rt ty == rt dyn) cs 0 with
+    match tsSequential ct cs 0 with
     | some i => some i
     | none => tsDefault cs 0
 
